@@ -57,6 +57,19 @@ MUTANTS = [
     dict(id='c01-dispatch-arm', prop='C01', rule='R1.5', file=DISP, old="Dispatch::Avx2 => Avx2::argmax_f32(scores),", new="Dispatch::Avx2 => Sse2::argmax(scores),"),
     dict(id='c01-dispatch-op', prop='C01', rule='R1.5', file=DISP, old="Dispatch::Avx2 => Avx2::max_u8(scores),", new="Dispatch::Avx2 => Avx2::argmax_u8(scores).map(|c| scores.matrix()[c] / 2),"),
     dict(id='c01-score-position-offset', prop='C01', rule='R1.6', file=PWM, old="            score += row[s[pos + j].as_index()]\n        }\n        score\n    }\n\n    /// Get a discrete matrix", new="            score += row[s[pos + j + 1].as_index()]\n        }\n        score\n    }\n\n    /// Get a discrete matrix"),
+    # ---- C07
+    dict(id='c07-max-zero-init', prop='C07', rule='R7.1', file=AVX2, old="let mut m3 = _mm256_set1_ps(f32::NEG_INFINITY);", new="let mut m3 = _mm256_setzero_ps();"),
+    dict(id='c07-max-epi8', prop='C07', rule='R7.1', file=AVX2, old="m = _mm256_max_epu8(m, r);", new="m = _mm256_max_epi8(m, r);"),
+    dict(id='c07-argmax-u8-order', prop='C07', rule='R7.2', file=AVX2, old="_mm256_permute2x128_si256(p1, p2, 0x31),", new="_mm256_permute2x128_si256(p1, p2, 0x13),"),
+    dict(id='c07-argmax-blend-other-mask', prop='C07', rule='R7.2', file=AVX2, old="p2 = _mm256_blendv_epi8(p2, index, _mm256_castps_si256(c2));", new="p2 = _mm256_blendv_epi8(p2, index, _mm256_castps_si256(c1));"),
+    dict(id='c07-argmax-f32-store-swap', prop='C07', rule='R7.2', file=AVX2, old="            _mm256_storeu_si256(x[0x08..].as_mut_ptr() as *mut _, p2);\n            _mm256_storeu_si256(x[0x10..].as_mut_ptr() as *mut _, p3);", new="            _mm256_storeu_si256(x[0x10..].as_mut_ptr() as *mut _, p2);\n            _mm256_storeu_si256(x[0x08..].as_mut_ptr() as *mut _, p3);"),
+    dict(id='c07-argmax-load-offset', prop='C07', rule='R7.2', file=AVX2, old="                let r3 = _mm256_load_ps(dataptr.add(0x10));\n                let r4 = _mm256_load_ps(dataptr.add(0x18));\n                // compare scores", new="                let r3 = _mm256_load_ps(dataptr.add(0x18));\n                let r4 = _mm256_load_ps(dataptr.add(0x10));\n                // compare scores"),
+    dict(id='c07-sse2-init-zero', prop='C07', rule='R7.1', file=SSE2F, old="let mut best_score = -f32::INFINITY;", new="let mut best_score = 0.0;"),
+    dict(id='c07-sse2-store-order', prop='C07', rule='R7.2', file=SSE2F, old="                _mm_storeu_si128(outptr.add(0x04) as *mut _, _mm_castps_si128(p2));\n                _mm_storeu_si128(outptr.add(0x08) as *mut _, _mm_castps_si128(p3));", new="                _mm_storeu_si128(outptr.add(0x08) as *mut _, _mm_castps_si128(p2));\n                _mm_storeu_si128(outptr.add(0x04) as *mut _, _mm_castps_si128(p3));"),
+    dict(id='c07-empty-guard-removed', prop='C07', rule='R7.3', file=AVX2, old="unsafe fn max_u8_avx2(scores: &StripedScores<u8, <Avx2 as Backend>::Lanes>) -> Option<u8> {\n    if scores.is_empty() {", new="unsafe fn max_u8_avx2(scores: &StripedScores<u8, <Avx2 as Backend>::Lanes>) -> Option<u8> {\n    if scores.max_index() == usize::MAX {"),
+    dict(id='c07-threshold-strict', prop='C07', rule='R7.5', file=PLI, old="if row[col] >= threshold {", new="if row[col] > threshold {"),
+    dict(id='c07-generic-argmax-col', prop='C07', rule='R7.4', file=PLI, old="                    best_row = i;\n                    best_col = j;", new="                    best_row = i;\n                    best_col = C::USIZE - 1 - j;"),
+    dict(id='c07-dispatch-max-arm', prop='C07', rule='R7.7', file=DISP, old="Dispatch::Avx2 => Avx2::max_f32(scores),", new="Dispatch::Avx2 => Avx2::argmax_f32(scores).map(|c| c.row as f32),"),
     # ---- C02 / C03
     dict(id='c02-unwrap-back', prop='C02', rule='R2.1', file=SCAN, old="if self.pipeline.max(&self.dscores).map_or(false, |m| m >= t) {", new="if self.pipeline.max(&self.dscores).unwrap() >= t {"),
     dict(id='c02-bound-removed', prop='C02', rule='R2.2', file=SCAN, old="if index < self.dscores.max_index() {", new="if index <= self.dscores.max_index() {"),
@@ -180,6 +193,9 @@ MUTANTS = [
 ]
 
 BENIGN = [
+    dict(id='c07-argmax-strict-generic', prop='C07', file=PLI, old="if row[j] >= best_score {", new="if row[j] > best_score {"),
+    dict(id='c07-cmp-lt', prop='C07', file=AVX2, old="let c3 = _mm256_cmp_ps(s3, r3, _CMP_LE_OS);", new="let c3 = _mm256_cmp_ps(s3, r3, _CMP_LT_OS);"),
+    dict(id='c07-max-init-first-row', prop='C07', file=AVX2, old="let mut m1 = _mm256_set1_ps(f32::NEG_INFINITY);", new="let mut m1 = _mm256_load_ps(dataptr);"),
     dict(id='c01-reorder-intrinsics', prop='C01', file=AVX2, occ=0, old="            s1 = _mm256_add_ps(s1, b1);\n            s2 = _mm256_add_ps(s2, b2);\n            s3 = _mm256_add_ps(s3, b3);\n            s4 = _mm256_add_ps(s4, b4);", new="            s4 = _mm256_add_ps(s4, b4);\n            s2 = _mm256_add_ps(s2, b2);\n            s3 = _mm256_add_ps(s3, b3);\n            s1 = _mm256_add_ps(s1, b1);"),
     dict(id='c01-length-plain', prop='C01', file=SSE2F, old="scores.resize(rows.len(), (seq.len() + 1).saturating_sub(pssm.rows()));", new="scores.resize(rows.len(), seq.len() - pssm.rows() + 1);"),
     dict(id='c15-guard-in-reader', prop='C15', file=IO+'uniprobe/mod.rs', old="        let matrix = match self::parse::build_matrix::<A>(columns) {", new="        if columns.is_empty() {\n            return Some(Err(Error::InvalidData));\n        }\n        let matrix = match self::parse::build_matrix::<A>(columns) {"),
